@@ -7,6 +7,7 @@
 import BtcVerif.Proofs.Tx
 import BtcVerif.Proofs.Block
 import BtcVerif.Proofs.NoPanic
+import BtcVerif.Proofs.WireSpec
 
 namespace BtcVerif.Props.C01
 open BtcVerif BtcVerif.Model BtcVerif.Parser
@@ -94,6 +95,87 @@ theorem tx_prefix_unique (a b : Tx) (ha : WFTx a) (hb : WFTx b) (ea eb ra rb : B
 
 /-- the decoder never panics, on any input -/
 theorem tx_dec_no_panic (bs : Bytes) : decTx bs ≠ .panic := decTx_ne_panic bs
+
+/-! ### the reference grammar (Spec/Wire.lean): "the same fields an independent reference parser returns"
+
+  `Spec.Wire.IsTx tx bs` says, in the words of the protocol documentation and with no reference to
+  the modelled encoder, decoder, their guards or the library's limits, that `bs` is the canonical
+  wire form of `tx`. The theorems below say that, on the library's domain, the encoder emits
+  exactly the grammar's string, the decoder returns exactly the grammar's fields for it and leaves
+  what follows unread, and that the grammar assigns one value to a string. -/
+
+open BtcVerif.Spec.Wire in
+/-- the encoder emits the grammar's string and nothing else -/
+theorem spec_encoder_agrees (tx : Tx) (h : WFTx tx) (bs : Bytes) :
+    IsTx tx bs ↔ encTx tx true = .ok bs := by
+  rw [Proofs.WireSpec.IsTx_iff, Proofs.WireSpec.encTx_eq_txBytes h]
+  constructor
+  · rintro ⟨_, rfl⟩; rfl
+  · intro he; injection he with he; exact ⟨Proofs.WireSpec.RTx_of_WF h, he.symm⟩
+
+open BtcVerif.Spec.Wire in
+/-- same for the witness-stripped form -/
+theorem spec_encoder_agrees_stripped (tx : Tx) (h : WFTx tx) (bs : Bytes) :
+    IsTxStripped tx bs ↔ encTx tx false = .ok bs := by
+  unfold IsTxStripped
+  rw [Proofs.WireSpec.IsTx_iff, Proofs.WireSpec.encTx_false_eq h]
+  constructor
+  · rintro ⟨_, rfl⟩; rfl
+  · intro he; injection he with he
+    exact ⟨Proofs.WireSpec.RTx_of_WF (Proofs.WireSpec.WF_strip h), he.symm⟩
+
+open BtcVerif.Spec.Wire in
+/-- for every string of the canonical wire format (of a transaction inside the library's limits)
+    followed by arbitrary bytes, the decoder returns the fields the grammar assigns to it and leaves
+    the following bytes unread -/
+theorem spec_decoder_agrees (tx : Tx) (h : WFTx tx) (bs rest : Bytes) (hs : IsTx tx bs) :
+    decTx (bs ++ rest) = .ok (tx, rest) := by
+  obtain ⟨e, he, hd⟩ := decTx_encTx tx rest h
+  have := (spec_encoder_agrees tx h bs).mp hs
+  rw [this] at he; injection he with he; subst he; exact hd
+
+open BtcVerif.Spec.Wire in
+/-- whatever the decoder returns on a canonical string re-encodes to that string, byte for byte -/
+theorem spec_reencode (tx tx' : Tx) (h : WFTx tx) (bs rest rest' : Bytes) (hs : IsTx tx bs)
+    (hd : decTx (bs ++ rest) = .ok (tx', rest')) : tx' = tx ∧ rest' = rest ∧ encTx tx' true = .ok bs := by
+  rw [spec_decoder_agrees tx h bs rest hs] at hd
+  injection hd with hd; injection hd with h1 h2
+  subst h1; subst h2
+  exact ⟨rfl, rfl, (spec_encoder_agrees _ h bs).mp hs⟩
+
+open BtcVerif.Spec.Wire in
+/-- the grammar is unambiguous and prefix-free on the domain: a stream position determines the
+    transaction and the bytes it occupies -/
+theorem spec_unambiguous (a b : Tx) (ha : WFTx a) (hb : WFTx b) (ea eb ra rb : Bytes)
+    (hea : IsTx a ea) (heb : IsTx b eb) (h : ea ++ ra = eb ++ rb) : a = b ∧ ea = eb ∧ ra = rb :=
+  tx_prefix_unique a b ha hb ea eb ra rb ((spec_encoder_agrees a ha ea).mp hea)
+    ((spec_encoder_agrees b hb eb).mp heb) h
+
+open BtcVerif.Spec.Wire in
+/-- blocks: encoder and decoder against the grammar -/
+theorem spec_block_agrees (b : Block) (h : WFBlock b) (bs rest : Bytes) :
+    (IsBlock b bs ↔ encBlock b = .ok bs) ∧ (IsBlock b bs → decBlock (bs ++ rest) = .ok (b, rest)) := by
+  refine ⟨Proofs.WireSpec.IsBlock_iff h bs, fun hs => ?_⟩
+  obtain ⟨e, he, hd⟩ := decBlock_enc b rest h
+  rw [(Proofs.WireSpec.IsBlock_iff h bs).mp hs] at he; injection he with he; subst he; exact hd
+
+open BtcVerif.Spec.Wire in
+/-- compact sizes and headers against the grammar -/
+theorem spec_parts_agree :
+    (∀ v bs, CompactSize v bs ↔ v < 2 ^ 64 ∧ bs = encVarint v) ∧
+    (∀ h bs, IsHeader h bs ↔ WFHeader h ∧ bs = encHeader h) ∧
+    (∀ i bs, IsTxIn i bs → WFTxIn i → bs = encTxIn i) ∧
+    (∀ o bs, IsTxOut o bs → bs = encTxOut o) ∧
+    (∀ w bs, IsWitnessStack w bs → bs = encWitness w) :=
+  ⟨fun _ _ => Proofs.WireSpec.CompactSize_iff, Proofs.WireSpec.IsHeader_iff,
+   fun i bs h _ => ((Proofs.WireSpec.IsTxIn_iff i bs).mp h).2,
+   fun o bs h => ((Proofs.WireSpec.IsTxOut_iff o bs).mp h).2,
+   fun w bs h => ((Proofs.WireSpec.IsWitnessStack_iff w bs).mp h).2⟩
+
+/-- non-vacuity of the grammar: the one-byte and three-byte compact sizes, derived from the rules -/
+example : Spec.Wire.CompactSize 252 [0xfc] ∧ Spec.Wire.CompactSize 253 [0xfd, 0xfd, 0x00] :=
+  ⟨.u8 (by decide) (by decide),
+   .u16 (by decide) (by decide) (.succ 0xfd (.succ 0x00 .zero))⟩
 
 /-! non-vacuity: a concrete segwit transaction with two inputs satisfies `WFTx` -/
 def sampleTx : Tx :=
